@@ -50,7 +50,7 @@ def pubTopic (s : Server) (i : Nat) (topic : Str) (alias : Option Nat) : Str :=
 /-- the exits after the QoS clamp: `q` is the clamped QoS, `mode` the `OnPublish` hook's verdict for the topic -/
 def pubTail (ver q : Nat) (mode : Option String) : PubAns :=
   if mode == some "reject" then .silent
-  else if mode == some "err" && ver == 5 && q > 0 then .ack 4 0x87
+  else if mode == some "err" && ver == 5 && q > 0 then .ack (if q == 2 then 5 else 4) 0x87
   else if q == 0 then .silent
   else .ack (if q == 2 then 5 else 4) (if q == 2 then 0 else q)
 
@@ -151,7 +151,7 @@ def ppRest (s : Server) (i : Nat) (c : Client) (pk : Msg) (id : Nat) : HRes :=
   let pk := if pk.qos > s.caps.maximumQos then { pk with qos := s.caps.maximumQos } else pk
   let mode := assocGet s.pubHook pk.topic
   if mode == some "reject" then (s, [], none)
-  else if mode == some "err" && c.ver == 5 && pk.qos > 0 then ackRes s i 4 id 0x87
+  else if mode == some "err" && c.ver == 5 && pk.qos > 0 then ackRes s i (if pk.qos == 2 then 5 else 4) id 0x87
   else
     let pk := if mode == some "ignore" then { pk with ignore := true } else pk
     let s := if pk.retain then retainMsg s pk else s
@@ -222,7 +222,8 @@ theorem ppRest_spec {s0 : Server} {conn i : Nat} (L : Live s0 conn i) (s1 : Serv
       by_cases h3 : (mode == some "err" && c2.ver == 5 && decide (pk3.qos > 0)) = true
       · have h3' : (mode == some "err" && (getObj s0 i).ver == 5 && decide (pk3.qos > 0)) = true := by
           rw [← hc.ver]; exact h3
-        rw [if_pos h3, if_pos h3', ackRes_live' L2 4 id 0x87 (by decide), hk2.ver]
+        have ht : (if (pk3.qos == 2) = true then 5 else 4) ≠ 3 := by split <;> decide
+        rw [if_pos h3, if_pos h3', ackRes_live' L2 _ id 0x87 ht, hk2.ver]
         exact ⟨rfl, [], rfl⟩
       · have h3' : ¬ (mode == some "err" && (getObj s0 i).ver == 5 && decide (pk3.qos > 0)) = true := by
           rw [← hc.ver]; exact h3
@@ -495,22 +496,16 @@ theorem pubVerdict_qos1 (s : Server) (i id : Nat) (topic : Str) (alias : Option 
             simp only [Bool.false_eq_true, if_false]
             by_cases h6 : (assocGet s.pubHook (pubTopic s i topic alias) == some "err" && (getObj s i).ver == 5 &&
                 decide (1 > 0)) = true
-            · exact ⟨0x87, by rw [if_neg h5, if_pos h6]⟩
+            · exact ⟨0x87, by rw [if_neg h5, if_pos h6]; rfl⟩
             · exact ⟨1, by rw [if_neg h5, if_neg h6]; rfl⟩
 
-/-- QoS 2, outside the exceptions (QoS clamp F07c, rejecting hook, hook error code for an MQTT 5 client — answered with
-    PUBACK): the verdict is `close` or a PUBREC -/
+/-- QoS 2, outside the exceptions (QoS clamp F07c, rejecting hook): the verdict is `close` or a PUBREC (a hook error
+    code for an MQTT 5 client is a PUBREC 0x87) -/
 theorem pubVerdict_qos2 (s : Server) (i id : Nat) (topic : Str) (alias : Option Nat)
     (hclamp : 2 ≤ s.caps.maximumQos)
-    (hhook : assocGet s.pubHook (pubTopic s i topic alias) ≠ some "reject")
-    (herr : ¬ (assocGet s.pubHook (pubTopic s i topic alias) = some "err" ∧ (getObj s i).ver = 5)) :
+    (hhook : assocGet s.pubHook (pubTopic s i topic alias) ≠ some "reject") :
     pubVerdict s i 2 id topic alias = .close ∨ ∃ rc, pubVerdict s i 2 id topic alias = .ack 5 rc := by
   have hh : (assocGet s.pubHook (pubTopic s i topic alias) == some "reject") = false := by simpa using hhook
-  have he : (assocGet s.pubHook (pubTopic s i topic alias) == some "err" && (getObj s i).ver == 5 &&
-      decide (2 > 0)) = false := by
-    cases h : (assocGet s.pubHook (pubTopic s i topic alias) == some "err" && (getObj s i).ver == 5 && decide (2 > 0))
-    · rfl
-    · exfalso; apply herr; simpa using h
   have hc : clampQos s 2 = 2 := by
     unfold clampQos
     rw [if_neg (by omega)]
@@ -543,8 +538,12 @@ theorem pubVerdict_qos2 (s : Server) (i id : Nat) (topic : Str) (alias : Option 
             · right
               rw [hc]
               unfold pubTail
-              rw [hh, he]
-              exact ⟨0, by simp [h5]⟩
+              rw [hh]
+              simp only [Bool.false_eq_true, if_false]
+              by_cases h6 : (assocGet s.pubHook (pubTopic s i topic alias) == some "err" && (getObj s i).ver == 5 &&
+                  decide (2 > 0)) = true
+              · exact ⟨0x87, by rw [if_neg h5, if_pos h6]; rfl⟩
+              · exact ⟨0, by rw [if_neg h5, if_neg h6]; rfl⟩
 
 /-- QoS 0 (no PUBREC record under the identifier — `PublishValidate` forces identifier 0): never an acknowledgement -/
 theorem pubVerdict_qos0 (s : Server) (i id : Nat) (topic : Str) (alias : Option Nat)
